@@ -481,6 +481,12 @@ def _borrowed(an: Analysis) -> None:
     from . import c08
 
     borrow(an, c08.check, {"C08.7": "C01.12", "C08.8": "C01.13"})
+    from . import c03
+
+    # C03.5: a non-empty update yields a new scope state built from the old values and the new ones - an update answered with the
+    # old snapshot (because the new elements "equal" the ones held, or after a first pass consumed a one-shot iterable of them)
+    # loses what the innermost block supplied
+    borrow(an, c03.check, {"C03.5": "C01.14"})
 
 
 def _is_type_of(e: ast.AST | None, name: str) -> bool:
